@@ -168,6 +168,8 @@ def scramble(h, codes, trace=None, warmup=None):
          (e is inserted again should the call have removed it)
       8  remove a hyperedge, ask the queries, insert it again (the last mutation is an insertion)
       9  insert an extra hyperedge, ask the queries, remove it (the last mutation is a removal)
+     12  copy(), edit and query the COPY, drop it; go on with the original
+     13  read everything through the public API, ask the queries, clear(), rebuild
      11  an insertion the container may refuse (weight 3 on an unweighted container; metadata
          that is not a dict): refused -> nothing may linger, accepted -> removed again
      10  (Temporal/Multiplex) singleton record(s) of a new node Z emptied by
@@ -184,7 +186,7 @@ def scramble(h, codes, trace=None, warmup=None):
         z = fresh_label(nodes)
         edges = list(h.get_edges())
         a = sorted(nodes, key=repr)[0]
-        code = code % 12
+        code = code % 14
         if code == 10 and (kind == "DirectedHypergraph" or z is None or not edges):
             code = 4
         if code == 7 and kind not in ("Hypergraph", "DirectedHypergraph"):
@@ -276,6 +278,77 @@ def scramble(h, codes, trace=None, warmup=None):
                     ask()
                     rem(other)
                     step = "insert %r, query, remove it" % (other,)
+        elif code == 12 and hasattr(h, "copy") and edges:
+            # a copy is taken, EDITED and dropped; the module goes on with the original, which
+            # must not have been touched through tables the copy shares with it
+            c = h.copy()
+            e = edges[0]
+            try:
+                if kind in ("Hypergraph", "DirectedHypergraph"):
+                    c.remove_edge(e)
+                    c.add_edge(e)
+                elif kind == "TemporalHypergraph":
+                    c.remove_edge(e[1], e[0])
+                    c.add_edge(e[1], e[0])
+                else:
+                    c.remove_edge((e[0], e[1]))
+                    c.add_edge(e[0], e[1])
+                if z is not None:
+                    c.add_node(z)
+            except Violation:
+                raise
+            if warmup is not None:
+                try:
+                    warmup(c)
+                except Violation:
+                    raise
+                except Exception:  # noqa
+                    pass
+            del c
+            step = "copy(), edit and query the copy, drop it"
+        elif code == 13 and edges and hasattr(h, "clear"):
+            # everything is read through the public API, the queries are asked, the object is
+            # clear()ed and rebuilt from what was read: nothing of the first life may survive
+            # (memoised listings, counters)
+            if kind == "TemporalHypergraph":
+                recs = [(e, h.get_weight(e[1], e[0]), dc(h.get_edge_metadata(e[1], e[0])))
+                        for e in edges]
+            elif kind == "MultiplexHypergraph":
+                recs = [(e, h.get_weight(e[0], e[1]), dc(h.get_edge_metadata(e[0], e[1])))
+                        for e in edges]
+            else:
+                recs = [(e, h.get_weight(e), dc(h.get_edge_metadata(e))) for e in edges]
+            table = nodes_with_metadata(h)
+            nmeta = [(n, dc(table.get(n, {}))) for n in nodes]
+            hg_meta = dc(h.get_hypergraph_metadata())
+            if warmup is not None:
+                try:
+                    warmup(h)
+                except Violation:
+                    raise
+                except Exception:  # noqa
+                    pass
+            h.clear()
+            for n, m in nmeta:
+                try:
+                    h.add_node(n, metadata=m)
+                except TypeError:   # a container whose add_node takes no metadata
+                    h.add_node(n)
+                    if m:
+                        h.set_node_metadata(n, m)
+            for e, w, m in recs:
+                kw = dict(weight=w) if h.is_weighted() else {}
+                if kind == "TemporalHypergraph":
+                    h.add_edge(e[1], e[0], metadata=m, **kw)
+                elif kind == "MultiplexHypergraph":
+                    h.add_edge(e[0], e[1], metadata=m, **kw)
+                else:
+                    h.add_edge(e, metadata=m, **kw)
+            try:
+                h.set_hypergraph_metadata(hg_meta)
+            except Exception:  # noqa: not every container has the setter
+                pass
+            step = "read everything, query, clear(), rebuild"
         elif code == 10 and kind in ("TemporalHypergraph", "MultiplexHypergraph"):
             # a record whose only node is a new node Z, emptied by remove_node(Z,
             # keep_edges=True): nothing is left to keep, the record disappears with the node
@@ -450,7 +523,7 @@ def history_codes(*parts):
     if int(d[0], 16) < 8:
         return []
     n = 1 + int(d[1], 16) % 3
-    return [int(d[2 + 2 * i:4 + 2 * i], 16) % 12 for i in range(n)]
+    return [int(d[2 + 2 * i:4 + 2 * i], 16) % 14 for i in range(n)]
 
 
 def default_warmup(h):
